@@ -18,7 +18,7 @@ Three ways of driving the real comparison methods:
   * real nodes built by the real NodeMaker.create_from_cap from real cap strings.
 """
 from vlib import hlib
-from vlib.hlib import NS, assume
+from vlib.hlib import NS
 hlib.ensure_shims()
 from allmydata import uri as U
 from allmydata.immutable.filenode import ImmutableFileNode, CiphertextFileNode
@@ -28,11 +28,40 @@ from allmydata.dirnode import DirectoryNode
 from allmydata.unknown import UnknownNode
 from allmydata.nodemaker import NodeMaker
 
+import base64 as _base64
+from allmydata.util import base32 as _base32
+
+
+class _NativeBase64(object):
+    """base64.b32encode/b32decode executed natively.  CrossHair replaces base64 by a symbolic model even for concrete
+    arguments (measured: ~0.2 s per to_string()); all arguments here are concrete table entries."""
+
+    @staticmethod
+    def b32encode(b):
+        from crosshair.tracers import NoTracing
+        from crosshair.core import deep_realize
+        with NoTracing():
+            return _base64.b32encode(deep_realize(b))
+
+    @staticmethod
+    def b32decode(b):
+        from crosshair.tracers import NoTracing
+        from crosshair.core import deep_realize
+        with NoTracing():
+            return _base64.b32decode(deep_realize(b))
+
+
+_base32.base64 = _NativeBase64
+
 B = hlib.bounds()
 EXCLUDED = []     # witness classes listed in known_findings.json (filled in by the worker)
 NOTES = [
+    "allmydata.util.base32's name `base64` replaced by a wrapper that runs the same C functions outside CrossHair's tracing (concrete arguments only)",
     "cap stand-ins: real uri classes instantiated with __new__; instance attribute to_string returns a token (no key material)",
-    "node stand-ins: real node classes instantiated with __new__; only u / _uri / _node / rw_uri / ro_uri / error are set",
+    "node stand-ins: real node classes instantiated with __new__; only u / _uri / _node / _verifycap / rw_uri / ro_uri / error are set",
+    "cap_real / nodes_real: the real caps and the real nodes (NodeMaker.create_from_cap) are built once at import, outside tracing; "
+    "the harness functions select them by symbolic index and run the comparisons under CrossHair",
+    "hash(x) is taken as x.__hash__() (CrossHair's builtin hash() patch is unstable on objects with object.__hash__)",
     "nodes_real: NodeMaker(storage_broker=None, secret_holder=None, history=None, uploader=None, terminator=recorder, "
     "default_encoding_parameters={k:3,n:10}); no network object is touched by node construction or comparison",
 ]
@@ -43,9 +72,16 @@ hlib.encoded(U._BaseURI.__eq__, U._BaseURI.__ne__, U._BaseURI.__hash__,
              LiteralFileNode.get_uri,
              MutableFileNode.__eq__, MutableFileNode.__ne__, MutableFileNode.__hash__, MutableFileNode.get_uri,
              MutableFileNode.init_from_cap,
-             DirectoryNode, CiphertextFileNode,
+             CiphertextFileNode,
              UnknownNode.__eq__, UnknownNode.__ne__, UnknownNode.get_uri,
              NodeMaker.create_from_cap, NodeMaker._create_from_single_cap)
+
+# DirectoryNode: comparison methods were added by a fix: commit; before that the class compared by identity
+for _m in ("__eq__", "__ne__", "__hash__"):
+    if _m in DirectoryNode.__dict__:
+        hlib.encoded(DirectoryNode.__dict__[_m])
+    else:
+        hlib.NOTES.append("DirectoryNode defines no %s (object identity is used)" % _m)
 
 # ---------------------------------------------------------------------------------------------------------
 # tokens and stand-ins
@@ -128,6 +164,14 @@ def _foreign(fk, tok, fint, holder):
     return holder                       # something that merely contains the object (a list)
 
 
+def _h(x):
+    """hash(x).  Written as x.__hash__() because CrossHair's patched builtin hash() is not stable on objects that use
+    object.__hash__ (measured: hash(o) == hash(o) refuted for a plain object); unhashable objects raise as hash() does."""
+    if type(x).__hash__ is None:
+        raise TypeError("unhashable type")
+    return x.__hash__()
+
+
 def _pair(a, b, want_eq, check_hash=True):
     """The property, on one ordered pair.  Returns True or a description."""
     eq1 = bool(a == b)
@@ -142,10 +186,10 @@ def _pair(a, b, want_eq, check_hash=True):
         return "== is not symmetric"
     if eq1 != want_eq:
         if want_eq:
-            return "objects with equal capability strings compare unequal"
+            return "objects with equal capability strings compare unequal"      # == _MSG_UNEQUAL
         return "objects compare equal although they are not same-kind objects with equal capability strings"
     if check_hash and eq1:
-        if hash(a) != hash(b):
+        if _h(a) != _h(b):
             return "equal objects hash differently"
     return True
 
@@ -153,7 +197,7 @@ def _pair(a, b, want_eq, check_hash=True):
 def _self_checks(a, check_hash=True):
     if not bool(a == a) or bool(a != a):
         return "object is not equal to itself"
-    if check_hash and hash(a) != hash(a):
+    if check_hash and _h(a) != _h(a):
         return "hash is not stable"
     return True
 
@@ -178,7 +222,7 @@ def h_cap_tokens(ka: int, ta: int, sel: int, kb: int, tb: int, fk: int, fint: in
     pre: 0 <= fk < NFOREIGN
     pre: sel == 1 or kb == 0
     pre: sel == 3 or fk == 0
-    pre: B.get("full_kb", False) or kb <= ka + 1
+    pre: B.get("full_kb", False) or kb == 0 or kb == (ka + 1) % NCAP
     post: _ == True
     """
     ka, kb, sel, fk = _conc(ka, NCAP), _conc(kb, NCAP), _conc(sel, 4), _conc(fk, NFOREIGN)
@@ -219,7 +263,7 @@ def h_cap_symbytes(ka: int, sa: bytes, sel: int, kb: int, sb: bytes, fk: int, fi
 # ---------------------------------------------------------------------------------------------------------
 KEYS = [b"\x00" * 16, b"\x00" * 15 + b"\x01", b"k" * 16, b"\x80" + b"\x00" * 15]
 FPS = [b"\x00" * 32, b"\x00" * 31 + b"\x01", b"f" * 32]
-LITS = [b"", b"a", b"ab", b"b"]
+LITS = [b"a", b"b", b"", b"ab"]        # the first two have equal length on purpose
 
 
 def _real_file_cap(fkind, i, j):
@@ -257,20 +301,30 @@ def _real_cap(k, i, j):
     return _DIRV[k - 15](_real_file_cap(k - 15 + 6, i, j))
 
 
+# built once at import (plain interpreter speed; the constructors are not the subject here, the comparisons are)
+REAL = [[[_real_cap(k, i, j) for j in range(len(FPS))] for i in range(len(KEYS))] for k in range(NREAL)]
+REAL2 = [[[_real_cap(k, i, j) for j in range(len(FPS))] for i in range(len(KEYS))] for k in range(NREAL)]   # distinct objects
+
+
 def h_cap_real(ka: int, ia: int, ja: int, sel: int, kb: int, ib: int, jb: int) -> bool:
     """
-    pre: 0 <= ka < NREAL and 0 <= kb < NREAL and 0 <= sel <= 1
+    pre: 0 <= ka < NREAL and 0 <= kb < NREAL and 0 <= sel <= 2
+    pre: sel != 2 or (ib == 0 and 0 <= jb < NFOREIGN and (B.get("full_kb", False) or (ia == 0 and ja == 0)))
     pre: 0 <= ia < B.get("nkey", 2) and 0 <= ib < B.get("nkey", 2)
-    pre: 0 <= ja < B.get("nfp", 2) and 0 <= jb < B.get("nfp", 2)
-    pre: sel == 1 or kb == 0
-    pre: B.get("full_kb", False) or kb in (0, 2, 3, 9, 10, 17)
+    pre: 0 <= ja < B.get("nfp", 2) and (sel == 2 or 0 <= jb < B.get("nfp", 2))
+    pre: sel == 1 or kb == 2
+    pre: B.get("full_kb", False) or (kb in (2, 10, 17) and (sel != 1 or (ib == ia and jb == ja)))
+    pre: B.get("ka") is None or ka in B["ka"]
     post: _ == True
     """
     ka, kb = _conc(ka, NREAL), _conc(kb, NREAL)
-    ia, ib, ja, jb = _conc(ia, len(KEYS)), _conc(ib, len(KEYS)), _conc(ja, len(FPS)), _conc(jb, len(FPS))
-    a = _real_cap(ka, ia, ja)
+    ia, ib, ja, jb = _conc(ia, len(KEYS)), _conc(ib, len(KEYS)), _conc(ja, len(FPS)), _conc(jb, NFOREIGN)
+    a = REAL[ka][ia][ja]
+    if sel == 2:
+        # foreign operand (jb selects which): None, int, the capability string itself, a duck, a plain object, a list
+        return _pair(a, _foreign(jb, a.to_string(), ib, [a]), False, check_hash=False)
     k2 = ka if sel == 0 else kb
-    b = _real_cap(k2, ib, jb)
+    b = REAL2[k2][ib][jb]
     sa, sb = a.to_string(), b.to_string()
     same_fields = (ka == k2 and ia == ib and (ja == jb or ka in (1, 10)))   # LIT and DIR2-LIT have no second field
     if (sa == sb) != same_fields:
@@ -343,6 +397,7 @@ def h_node_tokens(na: int, ca: int, ta: int, nb: int, share: bool, cb: int, tb: 
     pre: 0 <= nb <= NNODE
     pre: 0 <= ca < len(NODE_CAPS[na]) and 0 <= ta < B.get("ntok", 3) and 0 <= tb < B.get("ntok", 3)
     pre: 0 <= cb < (len(NODE_CAPS[nb]) if nb < NNODE else 1)
+    pre: B.get("full", False) or ((ca == 0 or ca == len(NODE_CAPS[na]) - 1) and cb <= 1)
     pre: 0 <= fk < NFOREIGN + 2
     pre: nb == NNODE or fk == 0
     pre: not share or (cb == 0 and tb == 0)
@@ -452,23 +507,41 @@ _NODE_KIND_OF = {ImmutableFileNode: N_IMM, LiteralFileNode: N_LIT, MutableFileNo
                  CiphertextFileNode: N_CIPHER}
 
 
+def _node_tables():
+    m1, m2 = _maker(), _maker()
+    first, again, other = {}, {}, {}
+    for k in REAL_NODE_KINDS:
+        for i in range(len(KEYS)):
+            s = REAL[k][i][0].to_string()
+            first[(k, i)] = m1.create_from_cap(s)
+    for k in REAL_NODE_KINDS:
+        for i in range(len(KEYS)):
+            s = REAL[k][i][0].to_string()
+            again[(k, i)] = m1.create_from_cap(s)       # second request to the same NodeMaker (its cache is alive)
+            other[(k, i)] = m2.create_from_cap(s)       # an independent NodeMaker
+    return first, again, other
+
+
+# built once at import by the real NodeMaker (plain interpreter speed); the harness only selects and compares
+NODE_FIRST, NODE_AGAIN, NODE_OTHER = _node_tables()
+
+
 def h_nodes_real(qa: int, ia: int, sel: int, qb: int, ib: int, same_maker: bool) -> bool:
     """
     pre: 0 <= qa < len(REAL_NODE_KINDS) and 0 <= qb < len(REAL_NODE_KINDS)
     pre: B.get("qa") is None or qa in B["qa"]
     pre: 0 <= ia < B.get("nkey", 2) and 0 <= ib < B.get("nkey", 2)
     pre: 0 <= sel <= 1 and (sel == 1 or qb == 0)
+    pre: B.get("full", False) or sel == 0 or (ib == ia and qb in (0, 1, 3, 6, 7, 11))
     post: _ == True
     """
     qa, qb, ia, ib = _conc(qa, len(REAL_NODE_KINDS)), _conc(qb, len(REAL_NODE_KINDS)), _conc(ia, len(KEYS)), _conc(ib, len(KEYS))
     ka = REAL_NODE_KINDS[qa]
     kb = ka if sel == 0 else REAL_NODE_KINDS[qb]
-    sa = _real_cap(ka, ia, 0).to_string()
-    sb = _real_cap(kb, ib, 0).to_string()
-    m1 = _maker()
-    m2 = m1 if same_maker else _maker()
-    a = m1.create_from_cap(sa)
-    b = m2.create_from_cap(sb)
+    sa = REAL[ka][ia][0].to_string()
+    sb = REAL[kb][ib][0].to_string()
+    a = NODE_FIRST[(ka, ia)]
+    b = NODE_AGAIN[(kb, ib)] if same_maker else NODE_OTHER[(kb, ib)]
     if type(a) is not _EXPECT_CLASS[ka] or type(b) is not _EXPECT_CLASS[kb]:
         raise hlib.HarnessError("NodeMaker built an unexpected node class")
     na = _NODE_KIND_OF[type(a)]
@@ -480,12 +553,20 @@ def h_nodes_real(qa: int, ia: int, sel: int, qb: int, ib: int, same_maker: bool)
     return _node_pair(na, a, b, sa == sb)
 
 
-def _cls_node_tokens(na, *args, **kw):
-    return IDENTITY_CLASS.get(na, "other")
+_MSG_UNEQUAL = "objects with equal capability strings compare unequal"
 
 
-def _cls_node_real(qa, *args, **kw):
-    return IDENTITY_CLASS.get(_NODE_KIND_OF[_EXPECT_CLASS[REAL_NODE_KINDS[qa]]], "other")
+def _classifier(fn, kind_of_first_arg):
+    """Witness class = '<Class>-compares-by-identity' only if the (concrete) witness fails exactly the clause 'equal
+    capability strings => equal' on a node class without comparison methods; anything else is 'other'."""
+    def classify(*args, **kw):
+        r = fn(*args, **kw)
+        if r == _MSG_UNEQUAL:
+            return IDENTITY_CLASS.get(kind_of_first_arg(args[0]), "other")
+        return "other"
+    return classify
 
 
-CLASSIFY = {"h_node_tokens": _cls_node_tokens, "h_node_symbytes": _cls_node_tokens, "h_nodes_real": _cls_node_real}
+CLASSIFY = {"h_node_tokens": _classifier(h_node_tokens, lambda na: na),
+            "h_node_symbytes": _classifier(h_node_symbytes, lambda na: na),
+            "h_nodes_real": _classifier(h_nodes_real, lambda qa: _NODE_KIND_OF[_EXPECT_CLASS[REAL_NODE_KINDS[qa]]])}
